@@ -6,6 +6,8 @@ Driver for C20. One case = one history (mode=seq) or one overlapping/concurrent 
 mode=seq — calls made THROUGH the middleware, in order:
   op <s3hist op line>                      a non-read call (see harness/cmd/verifharness/s3hist.go); `op dels <b> <k,k>` = DeleteObjects
   res ok … | res err <Kind> …              its result
+        suffix `win=1`: the `rd` lines between this `op` and its `res` were served while the call was in flight at
+        the inner storage (gated inner store: handed over, not yet applied); `chunk=<n>`: the body arrives in reads of n bytes
   aux put data=<bodytok> inhead=<R>        after a PutObject: the body that was streamed and the inner head afterwards
   rd <head|get|gethalf> <b> <k> vid=<~|null|vN> im=<c> inm=<c> calls=<h>,<g> mw=<R> in=<R> cur=<R>
         one read through the middleware (mw), the same request on the inner storage immediately afterwards (in),
@@ -29,6 +31,10 @@ import Pithos.Util.Proto
 import Pithos.Model.ObjectCache
 import Pithos.Gen.ObjectCache
 open Pithos Pithos.Proto Pithos.ObjectCache
+
+/-- Overrides whose invalidation precedes the inner call (regenerated T1 fact). -/
+def earlyMethods : List String :=
+  (Gen.ObjectCache.invalidationPosition.filter (fun e => e.2 == "before")).map (·.1)
 
 def kvOf (toks : List String) (k : String) : String :=
   match toks.find? (fun t => t.startsWith (k ++ "=")) with
@@ -233,18 +239,36 @@ def judgeSeq (cfg : List String) (lines : List String) : Verdict := Id.run do
   for l in lines do
     let t := tokens l
     match t with
-    | "op" :: _ => s := { s with pending := some t, pendRes := none }
+    | "op" :: _ =>
+      s := { s with pending := some t, pendRes := none }
+      if kvOf t "win" == "1" then
+        s := s.stat "calls_with_reads_in_flight"
+        -- an override that invalidates BEFORE handing the call to the inner storage (T1: invalidationPosition) has
+        -- done so by the time the in-flight reads below are served (`ObjectCache.runWin … early := true`)
+        if earlyMethods.contains (methodOf (t.getD 1 "")) then
+          let name := t.getD 1 ""
+          let key : Key := if name == "cp" then t.getD 4 "" ++ "/" ++ t.getD 5 "" else t.getD 2 "" ++ "/" ++ t.getD 3 ""
+          s := { s with cache := s.cache.inval key }
     | "res" :: st :: rest =>
       match s.pending with
       | none => s := { s with div := s.div ++ ["res-without-op"] }
       | some op =>
         if st == "panic" then
-          s := s.addVio "C20.panic" s!"{op.getD 1 ""}:{rest.getD 0 ""}"
+          -- the one known panic: a PutObject larger than the cache threshold whose body arrives in several reads
+          let bodyLen := (op.getD 4 "").length / 2
+          let chunk := (kvOf op "chunk").toNat!
+          if op.getD 1 "" == "put" && chunk > 0 && bodyLen > maxObj + chunk then
+            s := s.addVio "C20.panic-put-larger-than-threshold-in-several-reads" s!"put:{bodyLen}-bytes:maxobj={maxObj}:reads-of-{chunk}:{rest.getD 0 ""}"
+          else s := s.addVio "C20.panic" s!"{op.getD 1 ""}:{rest.getD 0 ""}"
           s := { s with pending := none }
         else if op.getD 1 "" == "put" then
           s := { s with pendRes := some (st == "ok") }
         else
-          s := s.applyCall p op (st == "ok") rest "" 0 (.err "none")
+          -- an early-invalidating override has invalidated before the inner call (not in flight: same effect as after)
+          let early := earlyMethods.contains (methodOf (op.getD 1 ""))
+          if early && kvOf op "win" == "1" then
+            s := s.applyCall ⟨fun _ => .none, p.keepKey, p.maxObj⟩ op (st == "ok") rest "" 0 (.err "none")
+          else s := s.applyCall p op (st == "ok") rest "" 0 (.err "none")
           s := { s with pending := none }
     | "aux" :: "put" :: rest =>
       match s.pending, s.pendRes with
